@@ -20,8 +20,14 @@ cd $WT && git checkout -q -- src && git clean -fdq tests 2>/dev/null
 # bring the scratch worktree to /repo's HEAD so that the patch is judged against the current tree
 git checkout -q --detach $(git -C /repo rev-parse HEAD) 2>/dev/null
 if ! git apply --check $DST/patch.diff 2>/dev/null; then echo "PATCH DOES NOT APPLY to HEAD"; echo '{"status":"patch does not apply"}' > $DST/meta.json; exit 3; fi
-cp $DST/demo.rs tests/seeded_demo.rs
-demo() { timeout 600 cargo test --offline --test seeded_demo >/tmp/wt/demo_$P$V.log 2>&1; echo $?; }
+if [ -f $OUT/demo.diff ]; then
+  cp $OUT/demo.diff $DST/demo.diff
+  git apply $DST/demo.diff || { echo "demo.diff does not apply"; exit 3; }
+  demo() { timeout 600 cargo test --offline --lib c14_ >/tmp/wt/demo_$P$V.log 2>&1; echo $?; }
+else
+  cp $DST/demo.rs tests/seeded_demo.rs
+  demo() { timeout 600 cargo test --offline --test seeded_demo >/tmp/wt/demo_$P$V.log 2>&1; echo $?; }
+fi
 D0=$(demo)                       # without the change
 git apply $DST/patch.diff
 D1=$(demo)                       # with the change
